@@ -459,6 +459,24 @@ Qed.
 Lemma disk_only_valid f s d : valid_state f s -> valid_state f (with_disk s d).
 Proof. destruct f; exact (fun H => H). Qed.
 
+Lemma git_move_valid s p d st s' :
+  valid_state Git s -> git_move s p d = Done st s' -> valid_state Git s'.
+Proof.
+  intros Hv. unfold git_move. destruct p; [intros H; inversion H; subst; exact Hv|].
+  destruct (negb (isdir (sdisk s) d)); [intros H; inversion H; subst; exact Hv|].
+  apply git_rename_one_valid; assumption.
+Qed.
+
+Lemma move_many_valid f ps : forall s d st s',
+  valid_state f s -> move_many f s ps d = Done st s' -> valid_state f s'.
+Proof.
+  induction ps as [|p ps IH]; intros s d st s' Hv; simpl.
+  - intros H; inversion H; subst; exact Hv.
+  - destruct (move1 f s p d) as [[|e] s1|] eqn:E; [| |discriminate].
+    + apply IH. destruct f; simpl in E; [eapply bzr_move_valid | eapply git_move_valid]; eassumption.
+    + intros H; inversion H; subst. destruct f; simpl in E; [eapply bzr_move_valid | eapply git_move_valid]; eassumption.
+Qed.
+
 (* ------------------------------------------------------------------ *)
 (* one step, any op, either format                                     *)
 
@@ -503,9 +521,7 @@ Proof.
   - apply bzr_rename_one_valid; assumption.
   - apply git_rename_one_valid; assumption.
   - apply bzr_move_valid; assumption.
-  - unfold git_move. destruct p; [intros H; inversion H; subst; exact Hv|].
-    destruct (negb (isdir (sdisk s) d)); [intros H; inversion H; subst; exact Hv|].
-    apply git_rename_one_valid; assumption.
+  - apply git_move_valid; assumption.
   - apply bzr_commit_valid; assumption.
   - (* Git commit *) unfold git_commit. destruct Hv as [Hi Hb].
     intros H; inversion H; subst; simpl. split.
@@ -517,6 +533,19 @@ Proof.
     destruct (negb (git_revert_guard s)); [discriminate|].
     destruct (revert_disk _ _ _ _ _ _); [|discriminate].
     intros H; inversion H; subst; simpl. split; assumption.
+  - apply (move_many_valid Bzr); assumption.
+  - apply (move_many_valid Git); assumption.
+  - (* Bzr smart_add *) unfold smart_add. destruct (isfile (sdisk s) p); [|discriminate].
+    assert (Hadd : bzr_add s p = Done st s' -> valid_state Bzr s').
+    { unfold bzr_add. destruct (dl (sdisk s) p) as [n|]; [|intros H; inversion H; subst; exact Hv].
+      destruct (path2id (sinv s) p) eqn:E; [intros H; inversion H; subst; exact Hv|].
+      apply add_entry_valid; assumption. }
+    destruct (path2id (sinv s) p); [exact Hadd|].
+    destruct (bzr_parent_check s p); [discriminate | exact Hadd].
+  - (* Git smart_add *) unfold smart_add, git_add. destruct Hv as [Hi Hb].
+    destruct (isfile (sdisk s) p); [|discriminate].
+    destruct (dl (sdisk s) p) as [[c x|]|]; intros H; inversion H; subst; simpl; split; try assumption.
+    apply ix_add_NoDup; assumption.
 Qed.
 
 Lemma init_valid f : valid_state f init_state.
